@@ -454,8 +454,39 @@ func (x *Exec) ite(c *smt.Term, a, b Value) Value {
 				return m
 			}
 		}
+		if bt, ok := b.(*smt.Term); ok && bt.Op == "int" && bt.Val == 0 {
+			if np := nilLike(x, av); np != nil {
+				if m := x.mergePtr(c, av, np); m != nil {
+					return m
+				}
+			}
+		}
+	}
+	if at, ok := a.(*smt.Term); ok && at.Op == "int" && at.Val == 0 {
+		if bp, ok := b.(*Ptr); ok {
+			if np := nilLike(x, bp); np != nil {
+				if m := x.mergePtr(c, np, bp); m != nil {
+					return m
+				}
+			}
+		}
 	}
 	unsupported("cannot merge values %T and %T", a, b)
+	return nil
+}
+
+// nilLike: the nil pointer in the shape of p (an interior address is nil exactly when its root is),
+// so that a pointer variable that is nil on one path and an element address on another can be merged.
+func nilLike(x *Exec, p *Ptr) *Ptr {
+	if len(p.Path) != 0 || p.SubIdx != nil {
+		return nil
+	}
+	switch {
+	case p.Arr != nil:
+		return &Ptr{Arr: x.B.IntC(0), Idx: x.B.BVC(0, 64), Key: p.Key, Type: p.Type, View: p.View}
+	case p.Ref != nil:
+		return &Ptr{Ref: x.B.IntC(0), Key: p.Key, Type: p.Type, View: p.View}
+	}
 	return nil
 }
 
@@ -496,6 +527,9 @@ func (x *Exec) mergePtr(c *smt.Term, a, b *Ptr) *Ptr {
 func (x *Exec) eqValue(a, b Value) *smt.Term {
 	switch av := a.(type) {
 	case *smt.Term:
+		if bp, isP := b.(*Ptr); isP && av.Op == "int" && av.Val == 0 {
+			return x.eqValue(bp, av)
+		}
 		return x.B.Eq(av, x.scalar(b, nil))
 	case *Struct:
 		bs, ok := b.(*Struct)
@@ -512,6 +546,16 @@ func (x *Exec) eqValue(a, b Value) *smt.Term {
 	case *Ptr:
 		bp, ok := b.(*Ptr)
 		if !ok {
+			if bt, isT := b.(*smt.Term); isT && bt.Op == "int" && bt.Val == 0 {
+				// an interior address is nil exactly when its root object is
+				switch {
+				case av.Ref != nil:
+					return x.B.Eq(av.Ref, bt)
+				case av.Arr != nil:
+					return x.B.Eq(av.Arr, bt)
+				}
+				return x.B.False()
+			}
 			unsupported("equality of address and %T", b)
 		}
 		return x.eqPtr(av, bp)
